@@ -117,10 +117,12 @@ class Runner:
 
     def confirm_and_record(self, data, kind, sig, origin):
         """three replays; all must fail the same way"""
+        if len(self.violations) >= 3:   # enough witnesses: do not spend the budget confirming more of (most likely) the same defect
+            self.notes.append(f"further failing candidate from {origin} ({kind}) not examined: three violations already confirmed"); return
         h = hashlib.sha1(data).hexdigest()[:12]
         d = os.path.join(EVID, "replays"); os.makedirs(d, exist_ok=True)
         path = os.path.join(d, f"{self.pid}-{h}.case"); open(path, "wb").write(data)
-        res = [self.replay(path, budget=30) for _ in range(3)]
+        res = [self.replay(path, budget=30) for _ in range(3)]   # hangs: 30 s each, normal cases cost milliseconds
         if not all(r[0] == kind for r in res):
             self.notes.append(f"FLAKY candidate {path} origin={origin} results={[r[0] for r in res]}"); return
         if kind == "hang" and not self.cfg.get("hang_is_violation"):
@@ -212,7 +214,7 @@ class Runner:
                 if k == "pass":
                     self.notes.append(f"shard {i} exited {rc} but the journaled case passes in isolation (tail: {open(f'{wd}/log').read()[-300:]!r})"); continue
                 self.n_min = getattr(self, "n_min", 0) + 1
-                small = self.minimise(data, k, 60 if self.tier == "quick" else 300) if self.n_min <= 2 else data
+                small = self.minimise(data, k, (40 if k == "hang" else 60) if self.tier == "quick" else 300) if (self.n_min <= 2 and len(self.violations) < 3) else data
                 self.confirm_and_record(small, k, s, f"shard{i}:{k}")
         return stats
 
